@@ -194,15 +194,13 @@ func VerifC08_DeleteChannelVsCreate() {
 // consumer) or its connection has been closed; nothing belonging to the deleted topic stays open.
 func VerifC08_SubVsTopicDelete() { verifSubVsTopicDelete(1, verifrt.Choice("ephemeral-topic", 2) == 1) }
 
-// The same race for an ephemeral topic with TWO preemptions (thorough tier only: about 10^5
-// interleavings): deep enough for the stale auto-delete callbacks of the dying topic to meet
-// the topic SUB re-creates under the same name.
+// The same race for an ephemeral topic with SUB's back-off sleep treated as what it is - 100 ms in
+// which every other thread runs, free of charge to the preemption bound (verifrt.SleepYields):
+// deep enough for the stale auto-delete callbacks of the dying topic to meet the topic SUB
+// re-creates under the same name.
 func VerifC08_SubVsEphemeralTopicDeleteDeep() {
-	if verifrt.Tier() == 0 {
-		verifrt.Reach("quick-tier-leaves-the-deep-variant-to-the-thorough-tier", true)
-		return
-	}
-	verifSubVsTopicDelete(2, true)
+	verifrt.SleepYields()
+	verifSubVsTopicDelete(1, true)
 }
 
 func verifSubVsTopicDelete(preemptions int, ephemeral bool) {
